@@ -399,3 +399,73 @@ func (c *Ctx) documentUntouched(rule string) {
 		r.Check(rule, "document-untouched:"+name, len(bad) == 0, c.U.Pos(fn.Pos()), name+" does not modify the decoded Spec document before/while it is validated"+ifMsg(strings.Join(bad, "; ")))
 	}
 }
+
+// noRebuildAfterLookup: an operation answers from ONE state of the index: once it has
+// looked a device up, nothing it calls may rebuild the index (refresh replaces every *Spec
+// and *Device object; what was resolved before would be mixed with what is resolved after).
+func (c *Ctx) noRebuildAfterLookup(rule string, fn *ssa.Function) {
+	r := c.R
+	if fn == nil {
+		return
+	}
+	// functions that (transitively) assign the index fields of the Cache
+	rebuilds := map[*ssa.Function]bool{}
+	fns := c.U.RepoFuncs("cdi")
+	for _, f := range fns {
+		ir.Instrs(f, func(in ssa.Instruction) {
+			if st, ok := in.(*ssa.Store); ok {
+				if fa, ok := st.Addr.(*ssa.FieldAddr); ok && ir.TypeIs(fa.X.Type(), "cdi", "Cache") {
+					switch ir.StructOf(fa.X.Type()).Field(fa.Field).Name() {
+					case "devices", "specs":
+						rebuilds[f] = true
+					}
+				}
+			}
+		})
+	}
+	for changed := true; changed; {
+		changed = false
+		for _, f := range fns {
+			if rebuilds[f] {
+				continue
+			}
+			for _, call := range ir.Calls(f) {
+				for _, g := range c.U.Callees(call) {
+					if rebuilds[g] {
+						rebuilds[f] = true
+						changed = true
+					}
+				}
+			}
+		}
+	}
+	var lookups []ssa.Instruction
+	ir.Instrs(fn, func(in ssa.Instruction) {
+		if lk, ok := in.(*ssa.Lookup); ok && strings.HasSuffix(c.valueDesc(lk.X), "c.devices") {
+			lookups = append(lookups, in)
+		}
+	})
+	n := 0
+	for _, call := range ir.Calls(fn) {
+		rb := false
+		for _, g := range c.U.Callees(call) {
+			if rebuilds[g] {
+				rb = true
+			}
+		}
+		if !rb {
+			continue
+		}
+		n++
+		after := false
+		for _, lk := range lookups {
+			if ir.CanReach(fn, ir.PathQuery{From: lk, To: call.(ssa.Instruction)}) {
+				after = true
+			}
+		}
+		r.Check(rule, "no-rebuild-after-lookup:"+c.calleeName(call), !after && len(lookups) > 0, c.pos(call), c.U.RelName(fn)+" calls "+c.calleeName(call)+", which can rebuild the index, only before its first device lookup: one request is answered from one state of the index")
+	}
+	if n == 0 && len(lookups) > 0 {
+		r.OK(rule, "no-rebuild-after-lookup", c.U.Pos(fn.Pos()), c.U.RelName(fn)+" calls nothing that rebuilds the index")
+	}
+}
